@@ -35,10 +35,17 @@ def S(xs):
 # instances
 
 def chan_exhaustive(ctx):
-    """Exhaustive-only instance of the Noise channel (not printed)."""
-    n = 10 if ctx.tier == "thorough" else 8
-    return "chan-x", {"Tag": 2, "MaxPT": 3, "MaxSent": n, "MaxWrite": n, "Bufs": S(range(1, 7)),
-                      "Shorts": S([0, 1, 2]), "Faults": ALL_FAULTS, "MaxFaults": 1}
+    """Exhaustive-only instances of the Noise channel (not printed): (name, constants, cfg substitutions)."""
+    t = ctx.tier == "thorough"
+    n = 10 if t else 9
+    base = {"Tag": 2, "MaxPT": 3, "Bufs": S(range(1, 7)), "Shorts": S([0, 1, 2]), "Faults": ALL_FAULTS}
+    return [
+        ("chan-x", dict(base, MaxSent=n, MaxWrite=n, MaxFaults=1), []),
+        # two faults per behaviour: a second fault can undo the first (swap twice, duplicate then drop), so only
+        # the clauses that hold whatever happened to the wire are checked: nothing but a prefix is ever delivered
+        ("chan-x2", dict(base, MaxSent=6 if t else 5, MaxWrite=6 if t else 5, MaxFaults=2),
+         [(CH_INV, "INVARIANTS TypeOK Prefix Complete Conservation Nonces")]),
+    ]
 
 
 def chan_replay(ctx):
@@ -83,8 +90,8 @@ def mux_exhaustive(ctx):
 # TLC jobs (each runs in a worker process; at most 4 TLC workers at any time overall)
 
 def _exhaustive(args):
-    ctx, module, template, name, consts, workers, deadlock = args
-    cfg = tlc.subst_cfg(template, consts)
+    ctx, module, template, name, consts, workers, deadlock, repl = args
+    cfg = tlc.subst_cfg(template, consts, replace=repl)
     r = tlc.run(ctx, module, "gen_%s_mc.cfg" % name, cfg_text=cfg, workers=workers, timeout=1500, name="mc" + name,
                 deadlock=deadlock)
     if not r.ok:
@@ -342,9 +349,17 @@ def run(ctx):
     beh_dir = ctx.sub("beh")
     rounds = 6 if thorough else 1
     stacks = "tcp-noise-yamux,tcp-tls-yamux,tcp-psk-noise-yamux,ws-noise-yamux,quic,webtransport,webrtc-direct"
-    env = {"VERIF_C02_ROUNDS": rounds, "VERIF_C02_PAR": 4, "VERIF_C02_TLS_SHARE": 1 if thorough else 4,
-           "VERIF_C02_MUX_SHARE": 1 if thorough else 2, "VERIF_C02_STACK_SHARE": 1 if thorough else 2,
-           "VERIF_C02_STACKS": stacks}
+    base = {"VERIF_C02_PAR": 4, "VERIF_C02_STACKS": stacks}
+    # rounds rotate the members of every boundary class; the trusted-dependency layers get fewer of them
+    envs = {
+        "noise": dict(base, VERIF_C02_ROUNDS=rounds),
+        "tls": dict(base, VERIF_C02_ROUNDS=2 if thorough else 1, VERIF_C02_TLS_SHARE=1 if thorough else 3),
+        "psk": dict(base, VERIF_C02_ROUNDS=rounds),
+        "sampled": dict(base, VERIF_C02_ROUNDS=rounds),
+        "mux": dict(base, VERIF_C02_ROUNDS=2 if thorough else 1, VERIF_C02_MUX_SHARE=1 if thorough else 2),
+        "lazy": dict(base, VERIF_C02_ROUNDS=rounds),
+        "stack": dict(base, VERIF_C02_ROUNDS=2 if thorough else 1, VERIF_C02_STACK_SHARE=1 if thorough else 2),
+    }
     keys = list(HARNESSES)
 
     states = trans = 0
@@ -355,9 +370,11 @@ def run(ctx):
     with cf.ProcessPoolExecutor(max_workers=1) as px, cf.ProcessPoolExecutor(max_workers=2) as pg, \
             cf.ProcessPoolExecutor(max_workers=3) as pb, cf.ProcessPoolExecutor(max_workers=len(keys)) as ph:
         fb = [pb.submit(_prebuild, (ctx, k)) for k in sorted(set(k for k in keys))]
-        xname, xconsts = chan_exhaustive(ctx)
-        fx = [px.submit(_exhaustive, (ctx, "C02_MC", "C02_MC.cfg", xname, xconsts, 2, False)),
-              px.submit(_exhaustive, (ctx, "C02_MCMux", "C02_MCMux.cfg", "mux-x", mux_exhaustive(ctx), 2, False))]
+        xinst = chan_exhaustive(ctx)
+        xconsts = xinst[0][1]
+        fx = [px.submit(_exhaustive, (ctx, "C02_MC", "C02_MC.cfg", name, consts, 2, False, repl))
+              for name, consts, repl in xinst]
+        fx.append(px.submit(_exhaustive, (ctx, "C02_MCMux", "C02_MCMux.cfg", "mux-x", mux_exhaustive(ctx), 2, False, [])))
         fg = []
         jobs = [("C02_MC", "C02_MC.cfg", name, consts, False) for name, consts in chan_replay(ctx)]
         for lname, (module, template, quick, thor) in LAYERS.items():
@@ -372,7 +389,7 @@ def run(ctx):
         gres = [f.result() for f in fg]
         log("C02: graphs and walks done at %.1fs" % ctx.wall())
         [f.result() for f in fb]
-        fh = [ph.submit(_harness, (ctx, k, beh_dir, env)) for k in keys]
+        fh = [ph.submit(_harness, (ctx, k, beh_dir, envs[k])) for k in keys]
         hres = dict(f.result() for f in fh)
         log("C02: replay done at %.1fs" % ctx.wall())
         xres = [f.result() for f in fx]
@@ -409,7 +426,7 @@ def run(ctx):
         if "crash" in res:
             # a harness process that died (a panic on a goroutine of the code under test or of a library cannot
             # be recovered by the harness): decide by re-running once
-            key2, res2 = _harness((ctx, k, beh_dir, env))
+            key2, res2 = _harness((ctx, k, beh_dir, envs[k]))
             if "crash" in res2:
                 res = _crash_verdict(k, res["crash"], res2["crash"])
             else:
@@ -456,15 +473,15 @@ def run(ctx):
         "bounded models (Tag=2, MaxPT in {2,3}, payload <= %s units); real lengths are boundary-class members chosen by seed (quick) or rotated through the members (thorough, %d rounds)" % (xconsts["MaxSent"], rounds),
         "flynn/noise, crypto/tls, go-yamux, go-multistream and the salsa20 stream are trusted dependencies; TLS, yamux and the loopback stacks run under the L1 ledger only",
         "ErrDry (the in-memory wire has nothing in flight) stands for a read that would block; cloned Noise sessions reuse the keys of one real handshake (1 walk in 32 runs its own)",
-        "a walk that stalls is a violation only if it stalls again when repeated (watchdogs 30 s / 60 s)",
+        "a walk that stalls is a violation only if it stalls again when repeated (watchdogs 20 s / 40 s); on the loopback stacks the harness keeps the unread total below the transport's connection-level window (QUIC, WebRTC)",
     ]}
 
 
 MANIFEST = {
-    "technique": "TLA+ specs of the channel family (C02_Channel.tla: Noise reader/writer state machines with the three read paths, chunking, nonce discipline and single wire faults; layer instances C02_Psk, C02_Sampled, C02_Mux, C02_LazyMS) model-checked exhaustively with TLC; every transition of the replay instances executed on the real objects (Noise sessions, libp2p-TLS connections, pskConn, wrappedSampledConn, yamux sessions plain/over Noise/over TLS, BasicHost streams) over an in-memory frame-aware man-in-the-middle pipe at real lengths chosen by a boundary-class scale map",
+    "technique": "TLA+ specs of the channel family (C02_Channel.tla: Noise reader/writer state machines with the three read paths, chunking, nonce discipline and single/double wire faults; layer instances C02_Psk, C02_Sampled, C02_Mux, C02_LazyMS) model-checked exhaustively with TLC; every transition of the replay instances executed on the real objects (Noise sessions, libp2p-TLS connections, pskConn, wrappedSampledConn, yamux sessions plain/over Noise/over TLS, BasicHost streams on the optimistic multistream path in memory and between libp2p nodes over seven loopback transport x security x muxer stacks) at real lengths chosen by a boundary-class scale map, over an in-memory frame-aware man-in-the-middle pipe for the fault matrix",
     "category": "model_checking",
-    "text": "TLC enumerates, for a bounded payload, every write split x read-buffer relation (below/equal/above the queued remainder, the plaintext, the frame including its tag) x short-read regime x single wire fault (flip, length flip, drop, duplicate, swap, cut, truncation) and checks prefix/completeness/error-no-later/nonce invariants on the model of the reader's three paths; each transition is then driven through the real code with lengths around 0, 1, 65518, 65519, 65520, 65535, k*65519+-1 and buffers {1, tag-1, tag, frame-1, frame, frame+tag-1, frame+tag, larger}, and an observable-only ledger (position-dependent payload) decides: bytes returned by Read are a prefix of bytes accepted by Write, equal at the end of a fault-free run, no spurious error, nothing beyond a tampered position before an error.",
-    "note": "Byte equality is decided by the harness, not by TLC. Bounded models; real lengths sampled from boundary classes (all members only in thorough, by rotation). flynn/noise, crypto/tls, go-yamux, go-multistream, salsa20 are trusted; TLS and yamux run under the L1 ledger only (no path model). QUIC/WebRTC/WebSocket/WebTransport stacks are not driven. A read that would block is represented by ErrDry of the in-memory wire.",
+    "text": "TLC enumerates, for a bounded payload, every write split x read-buffer relation (below/equal/above the queued remainder, the plaintext, the frame including its tag) x short-read regime x wire fault (flip, length flip, drop, duplicate, swap, cut, truncation inside / at a frame boundary) and checks prefix / completeness / conservation / nonce / error-no-later invariants on the model of the reader's three paths (with the code's quirk that the pooled path keeps an emptied queue for one more Read); each transition is then driven through the real code with lengths around 0, 1, 65518, 65519, 65520, 65535, k*65519+-1 and buffers {1, tag-1, tag, frame-1, frame, frame+tag-1, frame+tag, larger}, and an observable-only ledger (position-dependent payload) decides: bytes returned by Read are a prefix of bytes accepted by Write, equal at the end of a fault-free run, no spurious error, nothing beyond a tampered position before an error, EOF only after everything, per-stream FIFO without cross-talk, half-close leaves the other direction intact.",
+    "note": "Byte equality is decided by the harness, not by TLC. Bounded models; real lengths sampled from boundary classes (quick: seeded pick; thorough: rotation through the members). flynn/noise, crypto/tls, go-yamux, go-multistream, salsa20, quic-go, pion are trusted; TLS, yamux and the loopback stacks run under the L1 ledger only (no path model, no fault injection below QUIC/WebRTC). A read that would block is represented by ErrDry of the in-memory wire; cloned Noise sessions reuse the keys of one real handshake. The in-place guard change `>=` -> `>` is behaviour-preserving for the statement and is reported as L2 divergence only. A stall is a violation only if it reproduces (20 s / 40 s watchdogs); a harness-process panic only if it reproduces with a stack through the channel code.",
     "engines": [{"name": "C02_Channel", "path": "spec/C02_Channel.tla", "serves_properties": ["C02"],
-                 "kind_free_text": "TLA+ spec family + TLC exhaustive + full-transition replay with boundary-class scale map"}],
+                 "kind_free_text": "TLA+ spec family (C02_Channel, C02_Psk, C02_Sampled, C02_Mux, C02_LazyMS) + TLC exhaustive + full-transition replay with boundary-class scale map"}],
 }
